@@ -46,7 +46,7 @@ StdNames == IF Rich THEN {"InterfaceNotFound", "MethodNotFound", "MethodNotImple
             ELSE {"MethodNotImplemented"}
 
 St(k, name, std) == [k |-> k, name |-> name, std |-> std, tok |-> 0]
-Steps == {St("cont", <<>>, ""), St("final", <<>>, "")}
+Steps == {St("cont", <<>>, ""), St("final", <<>>, ""), St("same", <<>>, "")}
            \cup {St("err", n, "") : n \in ErrNames}
            \cup {St("std", <<>>, s) : s \in StdNames}
 
@@ -62,8 +62,9 @@ NoFl == [more |-> FALSE, oneway |-> FALSE, upgrade |-> FALSE]
 MoreFl == [more |-> TRUE, oneway |-> FALSE, upgrade |-> FALSE]
 OnewayFl == [more |-> FALSE, oneway |-> TRUE, upgrade |-> FALSE]
 
+Rets == {"nil", "err", "referr"}     \* referr: the handler returns the very error a refused reply attempt gave it
 RegFrames(n, nb) == {Fr("call", t, fl, "absent", s, r, nb) :
-                        t \in RegTargets, fl \in Flags, s \in Scripts(n), r \in {"nil", "err"}}
+                        t \in RegTargets, fl \in Flags, s \in Scripts(n), r \in Rets}
 OtherFrames(nb) == {Fr("call", t, fl, "absent", <<>>, "nil", nb) : t \in OtherTargets, fl \in Flags}
                      \cup {Fr("call", TgtDesc, fl, d, <<>>, "nil", nb) : fl \in {NoFl, OnewayFl, MoreFl}, d \in DParams}
 Garbage(nb) == {Fr(c, <<>>, NoFl, "absent", <<>>, "nil", nb) : c \in {"null", "badjson", "nonobj", "wrongtype"}}
@@ -108,6 +109,11 @@ F1 == LET FS == RegFrames(MaxScript, 1) \cup OtherFrames(1) \cup Garbage(1) \cup
 RFinal   == Fr("call", TgtA, NoFl, "absent", <<St("final", <<>>, "")>>, "nil", 1)
 RMore    == Fr("call", TgtB, MoreFl, "absent", <<St("cont", <<>>, ""), St("cont", <<>>, ""), St("final", <<>>, "")>>, "nil", 1)
 RRefused == Fr("call", TgtA, NoFl, "absent", <<St("cont", <<>>, ""), St("err", <<"E">>, ""), St("final", <<>>, "")>>, "nil", 1)
+(* Continues set once, then several replies without touching it: all refused without more, all continues with more *)
+RSticky  == Fr("call", TgtA, NoFl, "absent", <<St("cont", <<>>, ""), St("same", <<>>, ""), St("same", <<>>, "")>>, "nil", 1)
+RStickyM == Fr("call", TgtB, MoreFl, "absent", <<St("cont", <<>>, ""), St("same", <<>>, ""), St("final", <<>>, "")>>, "nil", 1)
+RRefErr  == Fr("call", TgtA, NoFl, "absent", <<St("cont", <<>>, "")>>, "referr", 1)
+RRefErr2 == Fr("call", TgtB, NoFl, "absent", <<St("err", OVS \o <<".", "E">>, "")>>, "referr", 1)
 ROneway  == Fr("call", TgtA, OnewayFl, "absent", <<St("final", <<>>, "")>>, "nil", 1)
 RNoReply == Fr("call", TgtA, NoFl, "absent", <<>>, "nil", 1)
 RHErr    == Fr("call", TgtA, NoFl, "absent", <<St("final", <<>>, "")>>, "err", 1)
@@ -119,7 +125,7 @@ RNull    == Fr("null", <<>>, NoFl, "absent", <<>>, "nil", 1)
 RBad     == Fr("badjson", <<>>, NoFl, "absent", <<>>, "nil", 1)
 REmpty   == Fr("empty", <<>>, NoFl, "absent", <<>>, "nil", 0)
 
-Rep1 == {RFinal, RMore, RRefused, ROneway, RNoReply, RHErr, RHErr0, RInfo, RInfoOw, RUnreg, RNull, RBad, REmpty}
+Rep1 == {RFinal, RMore, RRefused, RSticky, RStickyM, RRefErr, RRefErr2, ROneway, RNoReply, RHErr, RHErr0, RInfo, RInfoOw, RUnreg, RNull, RBad, REmpty}
 Rep2 == {RFinal, RMore, RInfo, RBad, Partial(1), ROneway}
 Wide(f) == IF f.cls = "empty" THEN f ELSE [f EXCEPT !.nb = 2]
 
@@ -130,7 +136,7 @@ F2 == LET Pairs == {<<a, b>> : a \in Rep1, b \in Rep2} \cup {<<Wide(a), b>> : a 
       {Sc(x[1], x[2], e) : x \in PS, e \in Ends}
 
 (* F3: three frames, segmentation classes *)
-Rep3 == {RFinal, RMore, ROneway, RInfo, RHErr}
+Rep3 == {RFinal, RMore, ROneway, RInfo, RHErr, RSticky, RRefErr}
 F3 == LET Tr == {<<a, b, c>> : a \in Rep3, b \in Rep3, c \in {RFinal, RInfo, Partial(1)}} IN
       {Sc(t, SegClass(t, k), e) : t \in Tr, k \in 1..NSegClass, e \in Ends}
 
@@ -181,8 +187,11 @@ Probe == Sc(<<RInfo, RFinal, RInfo>>, <<2, 2, 2>>, "halfclose")
 
 All == F1 \cup F2 \cup F3
 
+(* a connection whose handler waits until the other connections are done: their service must not depend on it *)
+RWait == Fr("call", TgtA, NoFl, "absent", <<St("wait", <<>>, ""), St("final", <<>>, "")>>, "nil", 1)
+WaitScen == Sc(<<RWait, RInfo>>, <<2, 2>>, "halfclose")
 (* a dozen scenarios for the multi-connection model *)
-Multi == {Sc(<<RFinal>>, <<2>>, "halfclose"), Sc(<<RMore, RInfo>>, <<1, 3>>, "halfclose"),
+Multi == {WaitScen, Sc(<<RFinal>>, <<2>>, "halfclose"), Sc(<<RMore, RInfo>>, <<1, 3>>, "halfclose"),
           Sc(<<RHErr, RFinal>>, <<4>>, "halfclose"), Sc(<<RBad>>, <<1, 1>>, "abort"),
           Sc(<<ROneway, RFinal>>, <<2, 2>>, "abort"), Sc(<<Partial(1)>>, <<1>>, "halfclose")}
 =============================================================================
